@@ -215,6 +215,10 @@ func (nodes IndividualNodes) Similarity(other IndividualNodes, options Similarit
 func createPointerJobs(left, right IndividualNodes, options *IndividualNodesCompareOptions, totals chan int64, jobs chan *IndividualComparison) {
 	ws := options.ConcurrentJobs()
 
+	// The similarity is the expensive part and can be calculated for each left
+	// individual independently.
+	candidates := make([]*IndividualComparison, len(left))
+
 	util.WorkerPool(ws, func(w int) {
 		for leftI := w; leftI < len(left); leftI += ws {
 			a := left[leftI]
@@ -237,20 +241,38 @@ func createPointerJobs(left, right IndividualNodes, options *IndividualNodesComp
 
 			ss := a.SurroundingSimilarity(b, options.SimilarityOptions, true)
 			if ss.WeightedSimilarity() >= options.SimilarityOptions.PreferPointerAbove {
-				options.adjustTotal(totals)
-
-				jobs <- &IndividualComparison{
+				candidates[leftI] = &IndividualComparison{
 					Left:         a,
 					Right:        b,
 					Similarity:   ss,
 					certainMatch: true,
 				}
-
-				options.sentA.Store(a.Pointer(), nil)
-				options.sentB.Store(b.Pointer(), nil)
 			}
 		}
 	})
+
+	// Several left individuals can have the same pointer (or none at all). An
+	// individual must never be matched twice and who gets whom must not depend
+	// on how the workers are scheduled, so this is decided in the order of the
+	// left individuals.
+	for _, candidate := range candidates {
+		if candidate == nil {
+			continue
+		}
+
+		if _, ok := options.sentA.Load(candidate.Left.Pointer()); ok {
+			continue
+		}
+
+		if _, ok := options.sentB.LoadOrStore(candidate.Right.Pointer(), nil); ok {
+			continue
+		}
+
+		options.sentA.Store(candidate.Left.Pointer(), nil)
+		options.adjustTotal(totals)
+
+		jobs <- candidate
+	}
 }
 
 func createUniqueJobs(left, right IndividualNodes, options *IndividualNodesCompareOptions, totals chan int64, jobs chan *IndividualComparison) {
